@@ -26,6 +26,7 @@ package main
 import (
 	"context"
 	"errors"
+	"hash/crc64"
 
 	"github.com/gagliardetto/solana-go"
 	"github.com/ipfs/go-cid"
@@ -212,16 +213,10 @@ func (a *verifC02Archive) payloadWithHead(head []byte, name string, n int, layou
 	return p
 }
 
-// verifC02Crc64 is CRC-64/ISO as hash/crc64 computes it (bit-serial, reflected, branch-free).
+// verifC02Crc64 is the checksum the archive creator records (CRC-64/ISO, as ipldbindcode.VerifyHash
+// recomputes it; under the engine both go through the same exact bit-serial model of hash/crc64).
 func verifC02Crc64(b []byte) uint64 {
-	crc := ^uint64(0)
-	for _, x := range b {
-		crc ^= uint64(x)
-		for k := 0; k < 8; k++ {
-			crc = (crc >> 1) ^ (0xD800000000000000 & -(crc & 1))
-		}
-	}
-	return ^crc
+	return crc64.Checksum(b, crc64.MakeTable(crc64.ISO))
 }
 
 // addTx archives a transaction node (not yet linked from an entry).
